@@ -392,3 +392,19 @@ M2('c01-lookup-helper-swaps-tables', 'C01', 'R5', [
 # expression / tuple; `# {3}` fed with the converter NAME (a key of the converter map); `# {3!r}` fed with the argstr; a
 # helper that applies !r itself; `$` + .fullmatch(); the inlined test `_IDENTIFIER_PATTERN.match(name) is None or ...`;
 # the unswapped _lookup helper.  `find = self._find; find(...)` is exit 2.
+# F19: whitespace is checked per segment; with only the whole-template check left, a field expression that spans a '/'
+# ("/{a:int(1/\n2)}-{y}") smuggles a line break into the literal part of a segment -> into the `# <pattern>` comment
+WS_SEG = """        if re.search(r'\\s', _FIELD_PATTERN.sub('{FIELD}', segment)):
+            raise UnacceptableRouteError('URI templates may not include whitespace.')
+
+"""
+M('c01-whitespace-check-per-segment-dropped', 'C01', 'R9', F, WS_SEG, "")
+M2('c01-whitespace-checks-dropped', 'C01', 'R9', [
+    {'file': F, 'old': WS_SEG, 'new': ""},
+    {'file': F, 'old': """        if re.search(r'\\s', _FIELD_PATTERN.sub('{FIELD}', uri_template)):
+            raise UnacceptableRouteError('URI templates may not include whitespace.')
+
+""", 'new': ""}])
+# the per-segment check only looks for blanks: a line break passes
+M('c01-whitespace-check-misses-line-breaks', 'C01', 'R9', F,
+  "        if re.search(r'\\s', _FIELD_PATTERN.sub('{FIELD}', segment)):", "        if re.search(r'[ \\t]', _FIELD_PATTERN.sub('{FIELD}', segment)):")
